@@ -14,6 +14,12 @@ void World::exec(const Step &s)
     hit_index = 0;
     desc.str("");
     const size_t obs_before = obs.size();
+    cur = &s;
+    cur_uid = (s.uid >= 0) ? s.uid : cur_step;
+    made_in_step = 0;
+    pick_no = fpick_no = 0;
+    for (int i = 0; i < 6; i++) cur_bind[i] = 0;
+    for (int i = 0; i < 4; i++) cur_fbind[i] = 0;
     if (tracing) { fprintf(stderr, "#%d c%d %s ...\n", cur_step, s.client, s.op.c_str()); fflush(stderr); }
     g_sim_clock++;
     const std::string &op = s.op;
@@ -75,6 +81,23 @@ void World::exec(const Step &s)
         if (s.dropk) o << " dropk=" << s.dropk;
         o << " " << desc.str();
         story.push_back(o.str());
+        Step r = s;
+        r.uid = cur_uid;
+        for (int i = 0; i < 6; i++) r.bind[i] = cur_bind[i];
+        for (int i = 0; i < 4; i++) r.fbind[i] = cur_fbind[i];
+        resolved.push_back(r);
+        if (const char* ro = getenv("SIM_RESOLVE_OUT")) {
+            // the choices made so far, for the minimiser (rewritten after
+            // every step so that a crashing run leaves it behind)
+            Plan Q = plan;
+            Q.steps = resolved;
+            for (size_t i = resolved.size(); i < plan.steps.size(); i++) {
+                Q.steps.push_back(plan.steps[i]);
+                if (Q.steps.back().uid < 0) Q.steps.back().uid = int(i);
+            }
+            Q.expect_class.clear(); Q.story.clear();
+            Q.write(ro);
+        }
         if (tracing) { fprintf(stderr, "%s\n", o.str().c_str()); fflush(stderr); }
     }
 }
